@@ -15,9 +15,12 @@ MaxOf(S) == IF S = {} THEN 0 ELSE CHOOSE x \in S : \A y \in S : y <= x
 
 GSpec  == Init /\ [][NextBuild]_vars
 
-GAddR  == LET d == RandomElement(Universe) IN AddInstrument(d)
-\* one successor per state: keep inserting with probability 5/6 (up to MaxLen), else build
-GStepR == IF Len(defs) < MaxLen /\ RandomElement(1..6) # 1 THEN GAddR ELSE Build
+\* one successor per state: keep inserting with probability 5/6 (up to MaxLen), else build.
+\* The draws are bound through singleton sets (a LET would re-draw at every reference).
+GStepR == \E r \in {RandomElement(1..6)} :
+              IF Len(defs) < MaxLen /\ r # 1
+              THEN \E d \in {RandomElement(Universe)} : AddInstrument(d)
+              ELSE Build
 GSpecR == Init /\ [][GStepR]_vars
 
 \* a mock execution link can only be put on an exchange whose instruments are all spot
